@@ -331,6 +331,9 @@ def run(ctx):
     stream.r_lost(ctx, P, 'S10-1')
     leading_text_skip(ctx, P)
     dash_line_tolerates_trailing_blanks(ctx, P)
+    # no error of the armor / base64 layer is dropped: an undecodable checksum line that becomes "no checksum" is an accepted input
+    # whose checksum does not match (R-err of C09 restricted to the armor stack)
+    stream.r_err(ctx, P, only=r'(^|<)(armor|base64|line_writer|crc24)::', floor=100)
     stream.zero_result_of_empty_request(ctx, P)
     b = ctx.body('armor::reader::Dearmor::<R>::read_footer')
     if b is not None:
